@@ -74,7 +74,7 @@ pub proof fn lemma_c07_of_phases(s: Seq<char>)
            _c.contract_only('builder', 'U-build.build'),
            _c.contract_only('qual', 'U-qmap.entry'),
            _c.contract_only('qual', 'U-qmap.VacantEntry.insert'),
-           dict(id='U-dq.decode_qualifiers', file=F, fn='decode_qualifiers', properties=['C02', 'C05', 'C06', 'C04'],
+           dict(id='U-dq.decode_qualifiers', file=F, fn='decode_qualifiers', properties=['C02', 'C05', 'C06', 'C04', 'C01', 'C09'],
                 attrs='#[verifier::loop_isolation(false)]',
                 contract='''    requires old(parts).qualifiers.wf()
     ensures
@@ -116,7 +116,7 @@ pub proof fn lemma_c07_of_phases(s: Seq<char>)
                 ),
            # R2: `impl<T> FromStr for GenericPurl<T> { fn from_str }` hoisted to a free function
            dict(id='U-parse.from_str', file=F, fn='from_str', ctx=r'impl<T> FromStr for GenericPurl<T>',
-                properties=['C02', 'C05', 'C07', 'C14', 'C04', 'C08', 'C01', 'C06', 'C13'],
+                properties=['C02', 'C05', 'C07', 'C14', 'C04', 'C08', 'C01', 'C06', 'C13', 'C09'],
                 sig_rw=[('R2', r'fn from_str\(s: &str\) -> Result<Self, Self::Err>',
                          'fn purl_from_str<T>(s: &str) -> Result<GenericPurl<T>, <T as PurlShape>::Error> where T: FromStr + PurlShape, <T as PurlShape>::Error: From<<T as FromStr>::Err>', 1)],
                 contract='    ensures parse_post::<T>(s@, r)',
